@@ -32,6 +32,8 @@ func runC20(w *core.World, r *core.Report) {
 		return
 	}
 	run := anchor(w, r, "vm", "(*Vm).Run")
+	roles := resolveEngineRoles(w)
+	labels := roleLabels(w, r)
 	// ---- R1 -----------------------------------------------------------------------------------
 	var dead *ssa.Function
 	for _, fn := range w.FuncsIn("vm") {
@@ -111,7 +113,7 @@ func runC20(w *core.World, r *core.Report) {
 				}
 				ok1, _ := core.MustPass(st, core.NewCut().AddEdge(dirtySet...))
 				ok2, _ := core.MustPass(st, core.NewCut().AddEdge(noCode...))
-				r.Check(ok1 && ok2 && len(tests) > 0 && len(noCode) > 0, "R2", core.QName(fn)+": graceful end condition", st.Pos(), "exiting only behind len(code)==0 and DIRTY set",
+				r.Check(ok1 && ok2 && len(tests) > 0 && len(noCode) > 0, "R2", label(labels, fn)+": graceful end condition", st.Pos(), "exiting only behind len(code)==0 and DIRTY set",
 					"the graceful-end marker is set under a different condition (not 'no code left and output pending'): a blocked or waiting session can be classified as ended and be reset")
 			}
 		}
@@ -167,7 +169,10 @@ func runC20(w *core.World, r *core.Report) {
 	checkPairing(w, r, "R2", "engine")
 
 	// ---- R3 -----------------------------------------------------------------------------------
-	if in := anchor(w, r, "engine", "(*DefaultEngine).init"); in != nil {
+	if roles.Init == nil {
+		r.Undecided("R3", "engine init", token.NoPos, "no unexported method of DefaultEngine called by Exec marks the engine initialised")
+	}
+	if in := roles.Init; in != nil {
 		moveOp, _ := constOf(w, r, "vm", "MOVE")
 		ok := false
 		for _, c := range core.CallsTo(in, "vm.NewLine") {
@@ -190,7 +195,7 @@ func runC20(w *core.World, r *core.Report) {
 			for v := range core.Forward(core.CallValue(c), nil) {
 				if refs := v.Referrers(); refs != nil {
 					for _, u := range *refs {
-						if cc, isCall := u.(ssa.CallInstruction); isCall && core.IsCallTo(cc, "engine.(*DefaultEngine).setCode", "state.(*State).SetCode") {
+						if cc, isCall := u.(ssa.CallInstruction); isCall && (core.IsCallTo(cc, "state.(*State).SetCode") || (roles.SetCode != nil && core.StaticCallee(cc) == roles.SetCode)) {
 							reaches = true
 						}
 					}
@@ -223,16 +228,22 @@ func runC20(w *core.World, r *core.Report) {
 				ok = true
 			}
 		}
-		r.Check(ok, "R3", "engine.(*DefaultEngine).init: restart point", in.Pos(), "MOVE <cfg.Root> injected when no code is pending", "with no pending code the engine does not start at the configured entry node (or overrides pending code)")
+		r.Check(ok, "R3", "engine init: restart point", in.Pos(), "MOVE <cfg.Root> injected when no code is pending", "with no pending code the engine does not start at the configured entry node (or overrides pending code)")
 	}
 
 	// ---- R4 -----------------------------------------------------------------------------------
-	if ex := anchor(w, r, "engine", "(*DefaultEngine).exec"); ex != nil {
+	if roles.ExecBackend == nil {
+		r.Undecided("R4", "engine exec backend", token.NoPos, "no unexported method of DefaultEngine called by Exec runs the VM")
+	}
+	if ex := roles.ExecBackend; ex != nil {
 		runCalls := core.CallsTo(ex, "vm.(*Vm).Run")
-		setCalls := append(core.CallsTo(ex, "engine.(*DefaultEngine).setCode"), core.CallsTo(ex, "state.(*State).SetCode")...)
+		setCalls := core.CallsTo(ex, "state.(*State).SetCode")
+		if roles.SetCode != nil {
+			setCalls = append(setCalls, callsToSet(ex, map[*ssa.Function]bool{roles.SetCode: true})...)
+		}
 		unset, tests := flagTestEdges(ex, fTerm, false)
 		if len(runCalls) == 0 || len(setCalls) == 0 {
-			r.Undecided("R4", "engine.(*DefaultEngine).exec: Run / setCode", ex.Pos(), "cannot find the VM run or the code store in exec")
+			r.Undecided("R4", "engine exec backend: Run / code recorder", ex.Pos(), "cannot find the VM run or the code store in exec")
 		} else {
 			isSet := func(in ssa.Instruction) bool {
 				for _, s := range setCalls {
@@ -243,7 +254,7 @@ func runC20(w *core.World, r *core.Report) {
 				return false
 			}
 			in, path := core.Reach(core.After(runCalls[0].(ssa.Instruction)), isSet, core.NewCut().AddEdge(unset...))
-			r.Check(in == nil && len(tests) > 0, "R4", "engine.(*DefaultEngine).exec: TERMINATE test before the code is recorded", runCalls[0].Pos(), "setCode only on the TERMINATE-unset edge",
+			r.Check(in == nil && len(tests) > 0, "R4", "engine exec backend: TERMINATE test before the code is recorded", runCalls[0].Pos(), "setCode only on the TERMINATE-unset edge",
 				"a run that ended because TERMINATE is set is treated like a normal end (graceful-end detection, reset and unblocking may follow): "+w.PathString(path))
 		}
 	}
@@ -253,7 +264,7 @@ func runC20(w *core.World, r *core.Report) {
 	for _, fn := range w.LibFuncs {
 		for _, c := range flagConstCalls(fn, fTerm, stResetFlag) {
 			nreset++
-			key := core.QName(fn) + ": ResetFlag(FLAG_TERMINATE)"
+			key := label(labels, fn) + ": ResetFlag(FLAG_TERMINATE)"
 			_, isDefer := c.(*ssa.Defer)
 			unset, tests := flagTestEdges(fn, fTerm, false)
 			if len(tests) > 0 && !isDefer {
